@@ -5,23 +5,21 @@
    pugixml are neither modelled nor proved: their behaviour is validated document by document by props/C08.py.
 
    NOT PROVED (checked by the run only, or not at all):
-   - the reference XML parser is characterised exactly (T_C08_xml_accepts_exactly), and that characterisation is wider
-     than XML 1.0 in two places (T_C08_xml_wider_than_standard: white space around the document element may be spelled
-     by character references / CDATA sections; the pseudo-attribute values of the XML declaration may contain
-     references).  pugixml never writes either; the run also parses every produced document with xml.etree (expat);
    - T_C08_load_invariant as ONE statement over all free choices of a rendering (proved separately: member order at
      every depth for every target type, T_C08_load_member_order_any; numeric spelling per number; white space and
      string spellings do not reach the DOM by T_C08_json_accepts_exactly, for the reference parser, not for RapidJSON);
    - anything about white space / escapes / character references / encodings at load time (third-party parsers):
-     validated by the re-rendering loop; T_C08_options_passed covers the JSON string / stream paths of the model (the
-     XML flags and the layout the writers produce from the indent options are observed: every pretty document is checked
-     for the configured padding character and count per nesting level);
+     validated by the re-rendering loop; T_C08_options_passed / T_C08_xml_options_passed cover what the adapters configure
+     (JSON: writer, indent, UTF type, BOM; XML: pugixml's save flags, indent string, encoding) composed with a stated
+     meaning of those settings; that RapidJSON / pugixml give them that meaning is observed: every produced document is
+     decoded per configuration and every pretty document is checked for the configured padding character and count per
+     nesting level;
    - the XML adapter model has no theorems of its own in this file (see Properties_C01jx.v for its defects);
    - validation error paths: xml_node::path() of pugixml (third party) is taken to be the names of the ancestor-or-self
      elements, a separator before each (x_render); the run compares every reported XML path with that.  For XML there is
      no standard to compare the paths with (T_C08_paths_xml_example shows what they cannot tell apart). *)
 From BS Require Import Base UtfSpec UtfModel JxJsonSpec JxJsonProofs JxJsonSound JxXmlSpec JxXmlProofs JxXmlSound JxModel JxProofs JxMemberOrder
-  JxPathModel JxPathProofs.
+  JxPathModel JxPathProofs JxXmlOptions.
 From Coq Require Import Permutation.
 Local Open Scope N_scope.
 
@@ -101,13 +99,15 @@ Print Assumptions T_C08_xml_parser_total.
 
 (* The parser accepts exactly the texts described by `xrenders` (JxXmlSound.v), and returns the tree they denote.
    xrenders is generative, production by production, and mentions none of the parsing functions: after end-of-line
-   normalisation (2.11) the text is an optional XML declaration (xmldecl_spells) followed by markup and character data
-   (xtext): start-, end- and empty-element tags with attributes (either quote, white space where the grammar allows it,
-   values normalised per 3.3.3, distinct names), character data with each character literal or as a predefined entity /
-   decimal / hexadecimal character reference (never the three characters that close a CDATA section), CDATA sections,
-   comments (no double hyphen) and processing instructions (target not xml in any case) anywhere; adjacent character data
-   is one text (merge_txt); the tokens form the tree (xtoks: an element without children is a start/end pair or an
-   empty-element tag), with white space allowed around the document element.  Code points and bytes (strict UTF-8). *)
+   normalisation (2.11) the text is an optional XML declaration (xmldecl_spells: pseudo-attributes with literal values)
+   followed by markup and character data (xtext, indexed by the nesting depth): start-, end- and empty-element tags with
+   attributes (either quote, white space where the grammar allows it, values normalised per 3.3.3, distinct names);
+   inside an element character data with each character literal or as a predefined entity / decimal / hexadecimal
+   character reference (never the three characters that close a CDATA section) and CDATA sections; outside the document
+   element only literal white space; comments (no double hyphen) and processing instructions (target not xml in any
+   case) anywhere; adjacent character data is one text (merge_txt); the tokens form the tree (xtoks: an element without
+   children is a start/end pair or an empty-element tag).  Code points and bytes (strict UTF-8).  Outside the subset by
+   design: DOCTYPE (hence other entities); a byte order mark is handled by the caller (the run strips it per configuration). *)
 Theorem T_C08_xml_accepts_exactly :
   (forall s0 x, xml_parse_cps s0 = XOk x <-> xrenders (norm_eol s0) x) /\
   (forall bytes x, xml_parse bytes = XOk x <-> exists cps, utf8_decode bytes = Some (Some cps) /\ xrenders (norm_eol cps) x) /\
@@ -115,19 +115,26 @@ Theorem T_C08_xml_accepts_exactly :
 Proof. split; [exact xml_cps_exact | split; [exact xml_parse_exact | exact xrenders_wf]]. Qed.
 Print Assumptions T_C08_xml_accepts_exactly.
 
-(* where that description (hence the parser) is wider than XML 1.0: white space before or after the document element
-   spelled by a character reference or a CDATA section (Misc allows literal white space only), and a reference inside a
-   value of the XML declaration (VersionNum, EncName, yes/no are literal).  The texts: &#32;<a/>,  <![CDATA[ ]]><a/>,
-   <a/><![CDATA[ ]]>,  <?xml version='&#49;.0'?><a/>.  No other difference was found when the description was written
-   against the recommendation; this one is a limitation of the reference parser, not of the library *)
-Example T_C08_xml_wider_than_standard :
-  xml_parse_cps [38; 35; 51; 50; 59; 60; 97; 47; 62] = XOk (XElem [97] [] []) /\
-  xml_parse_cps [60; 33; 91; 67; 68; 65; 84; 65; 91; 32; 93; 93; 62; 60; 97; 47; 62] = XOk (XElem [97] [] []) /\
-  xml_parse_cps [60; 97; 47; 62; 60; 33; 91; 67; 68; 65; 84; 65; 91; 32; 93; 93; 62] = XOk (XElem [97] [] []) /\
+(* the subset is strict where an earlier version of this parser was wider than XML 1.0: white space around the document
+   element only as literal S (Misc), not as a character reference or a CDATA section (also not an empty one), and no
+   reference inside a value of the XML declaration (VersionNum, EncName, yes/no are literal).  The four texts
+   &#32;<a/>,  <![CDATA[ ]]><a/>,  <a/><![CDATA[ ]]>,  <?xml version='&#49;.0'?><a/>  and  <![CDATA[]]><a/>  are rejected;
+   literal white space, comments and processing instructions before and after the document element are accepted *)
+Example T_C08_xml_strict_examples :
+  xml_parse_cps [38; 35; 51; 50; 59; 60; 97; 47; 62] = XErr /\
+  xml_parse_cps [60; 33; 91; 67; 68; 65; 84; 65; 91; 32; 93; 93; 62; 60; 97; 47; 62] = XErr /\
+  xml_parse_cps [60; 97; 47; 62; 60; 33; 91; 67; 68; 65; 84; 65; 91; 32; 93; 93; 62] = XErr /\
   xml_parse_cps [60; 63; 120; 109; 108; 32; 118; 101; 114; 115; 105; 111; 110; 61; 39; 38; 35; 52; 57; 59; 46; 48; 39;
-                 63; 62; 60; 97; 47; 62] = XOk (XElem [97] [] []).
-Proof. exact (conj wider_prolog_reference (conj wider_prolog_cdata (conj wider_epilog_cdata wider_decl_reference))). Qed.
-Print Assumptions T_C08_xml_wider_than_standard.
+                 63; 62; 60; 97; 47; 62] = XErr /\
+  xml_parse_cps [60; 33; 91; 67; 68; 65; 84; 65; 91; 93; 93; 62; 60; 97; 47; 62] = XErr /\
+  xml_parse_cps [60; 63; 120; 109; 108; 32; 118; 101; 114; 115; 105; 111; 110; 61; 39; 49; 46; 48; 39; 63; 62;
+                 32; 10; 60; 33; 45; 45; 32; 45; 45; 62; 60; 63; 112; 32; 120; 63; 62; 9; 60; 97; 47; 62; 10;
+                 60; 33; 45; 45; 45; 45; 62; 60; 63; 112; 63; 62; 32; 10] = XOk (XElem [97] [] []).
+Proof.
+  exact (conj strict_prolog_reference (conj strict_prolog_cdata (conj strict_epilog_cdata (conj strict_decl_reference
+           (conj strict_prolog_cdata_empty strict_misc_accepted))))).
+Qed.
+Print Assumptions T_C08_xml_strict_examples.
 
 Example T_C08_xml_example :
   xml_parse_cps (xml_print_cps (XElem [97] [([98], [34; 60; 10; 38])] [XText [60; 38; 62; 13; 93; 93; 62]; XElem [99] [] []; XText [32]])) =
@@ -290,3 +297,37 @@ Example T_C08_options_example :
   w_indent (json_writer (mkSopts true Utf8 false true 9 3)) = Some (9, 3).
 Proof. exact options_example. Qed.
 Print Assumptions T_C08_options_example.
+
+(* the same for the XML archive (JxXmlOptions.v).  xml_writer: what PugiXmlRootScope::Finalize() passes to
+   xml_document::save - format_indent or format_raw, the indent string string(paddingCharNum, paddingChar), format_write_bom
+   and ToPugiUtfType(encoding) for a stream, encoding_utf8 and no BOM for a std::string.  px_put: the meaning pugixml
+   documents for them (third party, observed per document): format_raw adds nothing, format_indent puts every element on
+   its own line after depth copies of the indent string, character data stays on its element's line; the text is encoded
+   in the chosen encoding after the encoding-specific BOM iff format_write_bom.  spec_xml_bytes: what the options mean -
+   depth x paddingCharNum copies of paddingChar iff enableFormat, and spec_bytes as for JSON.  `tag` (how pugixml spells a
+   tag and escapes text) is arbitrary.  Precondition of the archive (an assert): paddingCharNum >= 1 when enableFormat *)
+Theorem T_C08_xml_options_passed : forall tag o root, px_put tag (xml_writer o) root = spec_xml_bytes tag o root.
+Proof. exact xml_options_passed. Qed.
+Print Assumptions T_C08_xml_options_passed.
+
+Theorem T_C08_xml_options_utf_injective : forall a b, to_pugi_utf a = to_pugi_utf b -> a = b.
+Proof. exact to_pugi_utf_injective. Qed.
+Print Assumptions T_C08_xml_options_utf_injective.
+
+(* the stated exception (finding J47): whatever the options, the document declares no encoding (the declaration is always
+   <?xml version="1.0"?>), so by XML 1.0 4.3.3 the output is not self-describing exactly for a stream in UTF-16 / UTF-32
+   written without a byte order mark *)
+Theorem T_C08_xml_options_no_encoding_declaration : forall tag o root,
+  xml_declared_encoding (px_doc tag (xml_writer o) root) = None /\
+  (xml_self_describing o (match xml_declared_encoding (px_doc tag (xml_writer o) root) with Some _ => true | None => false end) = false <->
+   so_stream o = true /\ so_enc o <> Utf8 /\ so_bom o = false).
+Proof. intros tag o root. split; [apply xml_no_encoding_declared | apply xml_j47_exact]. Qed.
+Print Assumptions T_C08_xml_options_no_encoding_declaration.
+
+Example T_C08_xml_options_example :
+  px_put xtok_text (xml_writer (mkSopts true Utf16be true true 9 2)) (XElem [97] [] [XElem [98] [] []]) =
+    [0xFE; 0xFF] ++ units_bytes BE W16 (xml_decl_text ++ [10; 60; 97; 62; 10; 9; 9; 60; 98; 47; 62; 10; 60; 47; 97; 62; 10]) /\
+  px_put xtok_text (xml_writer (mkSopts false Utf16be true false 9 2)) (XElem [97] [] [XElem [98] [] []]) =
+    xml_decl_text ++ [60; 97; 62; 60; 98; 47; 62; 60; 47; 97; 62].
+Proof. exact xml_options_example. Qed.
+Print Assumptions T_C08_xml_options_example.
